@@ -3,6 +3,7 @@ package scen
 import (
 	"encoding/json"
 	"fmt"
+	"net"
 	"net/url"
 	"strings"
 	"time"
@@ -48,7 +49,7 @@ func toIdP(c *Ctx, r *env.HTTPResult) bool {
 	return r.Status == 302 && strings.HasPrefix(r.Header.Get("Location"), c.W.IdP.Issuer+"/auth")
 }
 
-var c13Failures = []string{"none", "unknown-state", "expired-state", "refuse", "noidtoken", "badsig", "wrongiss", "wrongaud", "expired", "noclaim", "5xx", "garbage", "code-replay", "idp-down", "claim-not-a-name"}
+var c13Failures = []string{"none", "unknown-state", "expired-state", "refuse", "noidtoken", "badsig", "wrongiss", "wrongaud", "expired", "noclaim", "5xx", "garbage", "code-replay", "idp-down", "claim-not-a-name", "claim-name-in-other-case"}
 
 // runC13: callback failure point x session store x (first callback | existing session),
 // followed by identity persistence and session-cookie mutations.
@@ -120,6 +121,10 @@ func runC13(c *Ctx) {
 		delete(c.W.IdP.Codes, code)
 	case "idp-down":
 		c.W.IdP.Down = true
+	case "claim-name-in-other-case":
+		// claims whose names differ from the user-name claims only in letter case are other claims
+		user.Claims = map[string]any{[]string{"UPN", "Preferred_Username", "UserName", "Unique_Name", "PREFERRED_USERNAME"}[c.T.Choose(5)]: userName}
+		code = c.W.IdP.NewCode(user)
 	case "claim-not-a-name":
 		// every candidate claim is present but none is a string: there is no user name
 		for _, k := range []string{"preferred_username", "unique_name", "upn", "username"} {
@@ -263,6 +268,13 @@ func runC13(c *Ctx) {
 	c.Samplef("%s; cookie-mutation=%s -> %d", sample, kind, r.Status)
 }
 
+func canonicalIP(s string) string {
+	if ip := net.ParseIP(s); ip != nil {
+		return ip.String()
+	}
+	return ""
+}
+
 func sameB64(a, b string) bool {
 	x, e1 := codec.UnB64(strings.TrimRight(a, "="))
 	y, e2 := codec.UnB64(strings.TrimRight(b, "="))
@@ -383,7 +395,8 @@ func runC12(c *Ctx) {
 		switch pol.paramKind {
 		case "expired":
 			tokHost = h
-			tok = queryToken(key, tokHost, pol.issuer, now.Add(-10*time.Minute))
+			// expired well beyond the JOSE library's one-minute leeway: 90 s to 10 min ago
+			tok = queryToken(key, tokHost, pol.issuer, now.Add(-[]time.Duration{90 * time.Second, 2 * time.Minute, 4 * time.Minute, 270 * time.Second, 10 * time.Minute}[c.T.Choose(5)]))
 		case "wrong-issuer":
 			tokHost = h
 			tok = queryToken(key, tokHost, "someone-else", now.Add(5*time.Minute))
@@ -414,9 +427,11 @@ func runC12(c *Ctx) {
 		path += "?host=" + url.QueryEscape(c.Arg["q"])
 	}
 	// the requesting client address: peer or first X-Forwarded-For element
-	clientIP := []string{"10.2.0.5", "2001:db8::5", "192.0.2.77", "2001:db8::7:20", "fe80::1:2", "::ffff:10"}[c.T.Choose(6)]
+	clientIP := []string{"10.2.0.5", "2001:db8::5", "192.0.2.77", "2001:db8::7:20", "fe80::1:2", "::ffff:10", "::ffff:198.51.100.7", "2001:DB8::7", "2001:0db8:0:0:0:0:0:7", "010.2.0.5"}[c.T.Choose(10)]
 	b := c.W.NewBrowser("b1", peerOf(clientIP, 51000))
-	if c.T.Bool(1, 3) {
+	// (spellings a proxy may forward that are not the canonical text of the address travel in
+	// X-Forwarded-For only: a TCP peer address is always canonical)
+	if c.T.Bool(1, 3) || clientIP != canonicalIP(clientIP) {
 		b.From = "10.200.0.1:4000"
 		b.XFF = clientIP + ", 10.200.0.9"
 	}
